@@ -255,6 +255,11 @@ def run(prop, seed, budget, ctx):
             if got != want:
                 failures.append({"part": "yielded-paths", "src": psrc[4 + 19 * i: 4 + 19 * (i + 1)], "datum": {"XS": xs, "tag": tag}, "real": got, "spec": want,
                                  "kind": "P", "k_ok": None, "why": ["yielded-error-not-placed-at-its-path"]})
+    # part 4: validators reading aggregate fields (flattened class, pattern / additional properties)
+    import agg_validators
+    af, an, ad, ah = agg_validators.run_part(seed, budget)
+    failures += af; distinct |= ad; n3 += an
+    for k_, v_ in ah.items(): hist[k_] += v_
     for f in failures: hist["fail:" + f["why"][0] if isinstance(f["why"], list) else "fail:K"] += 1
     return {"evaluations": n + n2 + n3, "distinct_nontrivial": len(distinct),
             "rule": "part 1: lists of 1-5 real Validator objects over 4 fields (dependency sets, field=, discard= / empty discard, pass / fail) run by "
@@ -306,6 +311,8 @@ def is_known(kid, case):
 
 
 def replay(prop, case, ctx):
+    if case.get("part") == "aggregate-validators":
+        return {k: case[k] for k in ("src", "datum", "outcome", "validators_run", "why")}
     if case.get("part") == "yielded-paths":
         from apischema import deserialize, ValidationError
         mod = build_module(["from dataclasses import dataclass, field", "from typing import *", "from apischema import validator, ValidationError, alias", ""] + case["src"], "valpathreplay")
